@@ -29,6 +29,7 @@ DESIGNATIONS = [
 
 class C15(Check):
     PROP = "C15"
+    CRASH_ORACLE = "C15.identity"
     RULE = ("each run = 1-2 roots with 1-6 definition files at directory depths 0-4 (mixed-case names, boundary versions, "
             "present/absent port-IDs, .dsdl/.uavcan), read via read_namespace (root absolute / cwd-relative / x/../x / symlink "
             "alias) and via read_files under every designation of targets and roots: absolute, bare root name, '..' spelling, "
